@@ -23,8 +23,9 @@ import (
 // answers (confirmed + pool).
 
 const (
-	appName = "$c11app" // a kernel contract registered by this driver: "bind" and "act"
-	appMeth = "act"
+	appName  = "$c11app"  // a kernel contract registered by this driver: "bind" and "act"
+	app2Name = "$c11app2" // a second one, bound to account A2 from the start
+	appMeth  = "act"
 )
 
 type histSim struct {
@@ -62,21 +63,28 @@ func newHistSim(name string, n *names) (*histSim, error) {
 	h := &histSim{node: node, n: n}
 	reg := node.Contract.GetKernRegistry()
 	// bind: writes the contract -> account mapping the way a deployment does
-	reg.RegisterKernMethod(appName, "bind", func(ctx contract.KContext) (*contract.Response, error) {
-		if err := ctx.Put(aclu.GetContract2AccountBucket(), []byte(appName), ctx.Args()["account"]); err != nil {
-			return nil, err
-		}
-		return &contract.Response{Status: 200, Message: "ok"}, nil
-	})
-	reg.RegisterKernMethod(appName, appMeth, func(ctx contract.KContext) (*contract.Response, error) {
-		return &contract.Response{Status: 200, Message: "ok"}, nil
-	})
+	for _, an := range []string{appName, app2Name} {
+		an := an
+		reg.RegisterKernMethod(an, "bind", func(ctx contract.KContext) (*contract.Response, error) {
+			if err := ctx.Put(aclu.GetContract2AccountBucket(), []byte(an), ctx.Args()["account"]); err != nil {
+				return nil, err
+			}
+			return &contract.Response{Status: 200, Message: "ok"}, nil
+		})
+		reg.RegisterKernMethod(an, appMeth, func(ctx contract.KContext) (*contract.Response, error) {
+			return &contract.Response{Status: 200, Message: "ok"}, nil
+		})
+	}
 	// fund both account names (a name can hold funds before the account exists) and confirm the transfers
 	bank := fx.GetKey("c11/bank")
 	for _, a := range []string{"A1", "A2"} {
 		if err := h.transfer(bank, bank.Address, nil, bank.Address, h.acct(a), 1000); err != nil {
 			return nil, fmt.Errorf("funding: %v", err)
 		}
+	}
+	// the second contract belongs to A2 from the start (A2 has no rule yet: nothing to satisfy)
+	if res, why, err := h.submit(bank, bank.Address, call{app2Name, "bind", map[string][]byte{"account": []byte(h.acct("A2"))}}); err != nil || res != "accept" {
+		return nil, fmt.Errorf("binding the second contract: %s %s %v", res, why, err)
 	}
 	h.seq++
 	if err := mine(node, fx.GetKey("m"), h.seq); err != nil {
@@ -132,9 +140,9 @@ func (h *histSim) uri(a string, k, via int) string {
 
 // submit: pre-execute, build, VerifyTx, DoTx. Result class: "pre_fail" (the contract refuses: no
 // transaction exists), "reject" (VerifyTx refuses), "accept" (verified and applied to the pool).
-func (h *histSim) submit(signer *fx.Key, authURI string, c call) (string, string, error) {
+func (h *histSim) submit(signer *fx.Key, authURI string, cs ...call) (string, string, error) {
 	auth := []string{authURI}
-	reqs, rw, err := preExec(h.node, signer.Address, auth, []call{c})
+	reqs, rw, err := preExec(h.node, signer.Address, auth, cs)
 	if err != nil {
 		return "pre_fail", err.Error(), nil
 	}
@@ -168,6 +176,13 @@ func (h *histSim) step(op fx.Ev) (string, string, error) {
 	case "setm":
 		return h.submit(key("k"), h.uri("A1", op.Int("k"), op.Int("via")), call{"$acl", "SetMethodAcl", map[string][]byte{
 			"contract_name": []byte(appName), "method_name": []byte(appMeth), "acl": h.ruleACL(op.Int("r"))}})
+	case "setm2": // one transaction, two SetMethodAcl requests: the contract of A1 and the contract of A2
+		c1 := call{"$acl", "SetMethodAcl", map[string][]byte{"contract_name": []byte(appName), "method_name": []byte(appMeth), "acl": h.ruleACL(op.Int("r"))}}
+		c2 := call{"$acl", "SetMethodAcl", map[string][]byte{"contract_name": []byte(app2Name), "method_name": []byte(appMeth), "acl": h.ruleACL(op.Int("r"))}}
+		if op.Int("ord") == 2 {
+			c1, c2 = c2, c1
+		}
+		return h.submit(key("k"), h.uri("A1", op.Int("k"), op.Int("via")), c1, c2)
 	case "call":
 		k := key("k")
 		return h.submit(k, k.Address, call{appName, appMeth, map[string][]byte{}})
@@ -235,6 +250,14 @@ func (h *histSim) obs() (map[string]interface{}, error) {
 	if err != nil {
 		return nil, err
 	}
+	m2c, err := h.node.Acl.GetContractMethodACL(app2Name, appMeth)
+	if err != nil {
+		return nil, err
+	}
+	m2p, _, err := liveACL(aclu.GetContractBucket(), aclu.MakeContractMethodKey(app2Name, appMeth))
+	if err != nil {
+		return nil, err
+	}
 	own := "none"
 	vd, err := rd.Get(aclu.GetContract2AccountBucket(), []byte(appName))
 	if err != nil {
@@ -246,7 +269,8 @@ func (h *histSim) obs() (map[string]interface{}, error) {
 			own = "confirmed"
 		}
 	}
-	return map[string]interface{}{"conf": conf, "pend": pend, "mconf": h.ruleID(mc), "mpend": h.ruleID(mp), "own": own}, nil
+	return map[string]interface{}{"conf": conf, "pend": pend, "mconf": h.ruleID(mc), "mpend": h.ruleID(mp),
+		"m2conf": h.ruleID(m2c), "m2pend": h.ruleID(m2p), "own": own}, nil
 }
 
 func histCmd(args []string) error {
